@@ -19,7 +19,7 @@ Print Assumptions C08_code_tie.
 
 (* ---- the tie to the code: src/polyseed.c as TRANSLATED on this run (Gen/CApi.v) ---- *)
 From Coq Require Import String.
-From PS Require Import Base GFDefs PackDefs StoreDefs MiscDefs StrDefs LangDefs ApiDefs GFProofs PackProofs StoreProofs CTieBase CTieLang CTiePhrase CTiePhraseEv CTieSplit CTieApi CTieDecode CTieEncode CTieLocals CTieInject CTieCmp.
+From PS Require Import Base GFDefs PackDefs StoreDefs MiscDefs StrDefs LangDefs ApiDefs GFProofs PackProofs StoreProofs CTieBase CTieLang CTiePhrase CTiePhraseEv CTieSplit CTieApi CTieDecode CTieEncode CTieLocals CTieInject CTieCmp CTieSearch.
 From PS.Gen Require Import Consts PrivConsts Langs.
 From PS.Gen Require CFuns.
 From PS.Gen Require CApi.
@@ -34,3 +34,41 @@ Theorem C08_code_tie_get_comparer :
            (zs key) (zs elm) = Some (comparer sgn L key elm).
 Proof. exact @tie_get_comparer. Qed.
 Print Assumptions C08_code_tie_get_comparer.
+
+(* lang_search as translated: binary search or linear scan by the is_sorted flag, first match of the scan, index or -1 - the mirror search, for every NUL-free token (libc bsearch by contract) *)
+Theorem C08_code_tie_lang_search :
+  forall (sgn : bool) (L : lang) (li : Z) (fuel fuelc : nat) (BS : Z -> list Z -> Z -> Z -> Z),
+         In L langs ->
+         (2050 <= fuel)%nat ->
+         (forall j : nat, (Datatypes.length (nth j (l_words L) []) + 2 <= fuelc)%nat) ->
+         (forall key : bytes,
+          no_nul key ->
+          BS li (zs key) 2048%Z (CApi.get_comparer (flag (l_has_prefix L)) (flag (l_has_accents L)) li) =
+          enc (bsearch_loop 13 (fun j : nat => comparer sgn L key (nth j (l_words L) [])) 0 LANG_SIZE_nat)) ->
+         forall key : bytes,
+         no_nul key ->
+         (Datatypes.length key + 2 <= fuelc)%nat ->
+         CApi.lang_search fuel (flag (l_is_sorted L)) BS (fun _ i : Z => zs (nth (Z.to_nat i) (l_words L) []))
+           (CC sgn fuelc) li (zs key) (CApi.get_comparer (flag (l_has_prefix L)) (flag (l_has_accents L)) li) =
+         Some (enc (lang_search sgn L key)).
+Proof. exact @tie_lang_search. Qed.
+Print Assumptions C08_code_tie_lang_search.
+
+(* polyseed_lang_find_word as translated: get_comparer, then lang_search *)
+Theorem C08_code_tie_find_word :
+  forall (sgn : bool) (L : lang) (li : Z) (fuel fuelc : nat) (BS : Z -> list Z -> Z -> Z -> Z),
+         In L langs ->
+         (2050 <= fuel)%nat ->
+         (forall j : nat, (Datatypes.length (nth j (l_words L) []) + 2 <= fuelc)%nat) ->
+         (forall key : bytes,
+          no_nul key ->
+          BS li (zs key) 2048%Z (CApi.get_comparer (flag (l_has_prefix L)) (flag (l_has_accents L)) li) =
+          enc (bsearch_loop 13 (fun j : nat => comparer sgn L key (nth j (l_words L) [])) 0 LANG_SIZE_nat)) ->
+         forall key : bytes,
+         no_nul key ->
+         (Datatypes.length key + 2 <= fuelc)%nat ->
+         CApi.polyseed_lang_find_word fuel (flag (l_has_prefix L)) (flag (l_has_accents L))
+           (flag (l_is_sorted L)) BS (fun _ i : Z => zs (nth (Z.to_nat i) (l_words L) [])) 
+           (CC sgn fuelc) li (zs key) = Some (enc (lang_search sgn L key)).
+Proof. exact @tie_lang_find_word. Qed.
+Print Assumptions C08_code_tie_find_word.
